@@ -109,6 +109,8 @@ class BuiltinMixin:
             self.ctx.bound_stack.append(binder)
             cache_keys = set(self._axiom_cache)
             axs_before = set(st.axs)
+        if skolem and self.cur is not None and "eager-inst" in self.cur.hints:
+            self.instantiate_at(st, i)
         # evaluate the body with a symbolic index; the body of a quantified spec must be pure
         st.frames.append(dict(st.env))
         saved_mode = self.spec_mode
@@ -157,6 +159,20 @@ class BuiltinMixin:
             body = z3.Implies(rng, b)
             return V(("bool",), qforall([i], body, patterns=pats) if pats else qforall([i], body))
         return V(("bool",), z3.Exists([i], z3.And(rng, b)))
+
+    def instantiate_at(self, st, c):
+        """Eager instantiation: every universally quantified assumption over one integer is instantiated at the Skolem
+        constant of the goal (sound: an instance of an assumption).  The ground instances are visible to the
+        quantifier-free path solver (store-chain resolution, branch pruning) and spare the SMT solver the matching."""
+        n_before = len(st.pc)
+        for f in list(st.pc[:n_before]):
+            guard = None
+            q = f
+            if z3.is_app(f) and f.decl().kind() == z3.Z3_OP_IMPLIES and z3.is_quantifier(f.arg(1)):
+                guard, q = f.arg(0), f.arg(1)
+            if z3.is_quantifier(q) and q.is_forall() and q.num_vars() == 1 and q.var_sort(0) == z3.IntSort():
+                inst = z3.substitute_vars(q.body(), c)
+                st.assume(z3.Implies(guard, inst) if guard is not None else inst)
 
     def _patterns(self, i, *exprs):
         """select terms indexed exactly by the bound variable (or var+const) make good triggers"""
